@@ -964,7 +964,7 @@ def build_operation(desc):
     item = {desc["method"]: op}
     for m in desc["other_methods"]:
         item[m] = {"responses": {"200": {"description": "ok"}}}
-    raw = {"openapi": "3.0.2", "info": {"title": "t", "version": "1"}, "paths": {path: item}}
+    raw = {"openapi": desc.get("openapi", "3.0.2"), "info": {"title": "t", "version": "1"}, "paths": {path: item}}
     schema = schemathesis.openapi.from_dict(raw)
     return schema[path][desc["method"].upper()]
 
@@ -1896,6 +1896,14 @@ def judge(chk, items, counter=None):
             region = "unsatisfiable_range"  # a template drawn by the foreign generator for a schema with an empty range: outside its contract
         if region is None and mode == "N" and isinstance(schema, dict) and ("anyOf" in schema or "oneOf" in schema):
             region = "anyof_sibling"
+        if (
+            region is None and mode == "N" and isinstance(schema, dict) and desc in ("String larger than maxLength", "String smaller than minLength")
+            and isinstance(schema.get("type"), list) and any(t != "string" for t in schema["type"]) and not isinstance(value, str)
+            and is_valid({"type": schema["type"]}, value)
+        ):
+            # F11: the wrong-length request keeps the declared type LIST; the foreign generator answered with a value of another listed
+            # type (model: length_request_type / C03_length_negative_type_list_refuted)
+            region = "length_negative_type_list"
         chk.fail(
             it["what"] + (": labelled positive, does not conform to its schema" if mode == "P" else ": labelled negative, conforms to its schema"),
             {**it["input"], "value": repr(it["value"])[:160], "description": it["desc"]},
@@ -2037,6 +2045,183 @@ def stage_bounds(chk, thorough=False):
                         items += case_items(desc, "coverage case with a bounded body")
     stats["mislabelled"] = judge(chk, items, stats)
     chk.stages["oracle_bounded_keywords"] = stats
+
+
+# ----------------------------------------------------------------------------------------
+# _negative_type for a `type` keyword that is a string OR a list (type: [integer, null], the OpenAPI 3.1 nullable integer):
+# tie with negative_type_plan (which strategies are consulted), jsonschema oracle at value and case level
+# ----------------------------------------------------------------------------------------
+TYPE_NAMES = ["integer", "number", "boolean", "null", "string", "array", "object"]
+TYPE_C = {"integer": "TInteger", "number": "TNumber", "boolean": "TBoolean", "null": "TNull", "string": "TString", "array": "TArray", "object": "TObject"}
+STRAT_OF_TYPE = {"integer": "SIntegers", "number": "SNumeric", "boolean": "SBooleans", "null": "SNone", "string": "SText", "array": "SArrays", "object": "SObjects"}
+OTHER_NAMES = ["file", "int", "any"]
+
+
+def c_jtype(name):
+    return TYPE_C[name] if name in TYPE_C else f"(TOther {cN(OTHER_NAMES.index(name))})"
+
+
+def c_type_kw(kw):
+    if isinstance(kw, str):
+        return f"(TyStr {c_jtype(kw)})"
+    return f"(TyList {clist([c_jtype(t) for t in kw], 'jtype')})"
+
+
+def strategy_tag(strategy) -> str:
+    """Which strategy _negative_type consults: the entries of STRATEGIES_FOR_TYPE by identity, the filtered float strategy by what
+    it is built from (FLOAT_STRATEGY filtered by the code's own _is_non_integer_float)."""
+    coverage, _ = _cov()
+    for name, st_ in coverage.STRATEGIES_FOR_TYPE.items():
+        if strategy is st_:
+            return STRAT_OF_TYPE.get(name, "unknown:" + name)
+    if repr(strategy) == repr(coverage.FLOAT_STRATEGY) + ".filter(_is_non_integer_float)":
+        return "SFracFloats"
+    return "unknown:" + repr(strategy)[:80]
+
+
+def impl_negative_type(kw):
+    """(strategies consulted by _negative_type in order, yielded values, how it ended), with a fresh seen set."""
+    coverage, GM = _cov()
+    consulted = []
+    original = coverage.CoverageContext.generate_from
+
+    def wrapper(self, strategy):
+        consulted.append(strategy_tag(strategy))
+        return original(self, strategy)
+
+    ctx = coverage.CoverageContext(location="body", generation_modes=modes_of("N"))
+    values, end = [], "TypePlan"
+    coverage.CoverageContext.generate_from = wrapper
+    try:
+        for v in coverage._negative_type(ctx, set(), copy.deepcopy(kw)):
+            values.append((v.value, "N" if v.generation_mode == GM.NEGATIVE else "P", v.description))
+    except KeyError:
+        end = "TypeRaisesKeyError"
+    except Exception as exc:  # noqa: BLE001
+        end = "raises " + type(exc).__name__
+    finally:
+        coverage.CoverageContext.generate_from = original
+    return consulted, values, end
+
+
+def type_keywords(rng, thorough):
+    """Systematic: every one of the 128 sets of the seven names as a list (shuffled), every name as a string and as a one-element
+    list; sampled: repetitions, unknown names."""
+    import itertools
+
+    out = [t for t in TYPE_NAMES] + [[t] for t in TYPE_NAMES]
+    for r in range(0, 8):
+        for combo in itertools.combinations(TYPE_NAMES, r):
+            names = list(combo)
+            rng.shuffle(names)
+            out.append(names)
+    for _ in range(60 if thorough else 20):
+        names = [rng.choice(TYPE_NAMES) for _ in range(rng.choice([2, 3, 4]))]
+        if rng.random() < 0.4:
+            names.insert(rng.randrange(len(names) + 1), rng.choice(OTHER_NAMES))
+        out.append(names)
+    out += [rng.choice(OTHER_NAMES), [rng.choice(OTHER_NAMES)]]
+    return out
+
+
+LIST_TYPE_EXTRAS = {
+    "integer": [{}, {"minimum": -5, "maximum": 5}, {"minimum": 0}, {"maximum": 0}, {"minimum": 0, "maximum": 0}],
+    "number": [{}, {"minimum": -5, "maximum": 5}],
+    "string": [{}, {"minLength": 1}, {"maxLength": 3}],
+    "array": [{"items": {"type": "integer"}}, {"items": {"type": ["integer", "null"]}, "maxItems": 2}],
+    "object": [{"properties": {"count": {"type": ["integer", "null"]}}, "required": ["count"]}, {"properties": {"a": {"type": "integer"}}}],
+}
+LIST_TYPES = [
+    ["integer", "null"], ["null", "integer"], ["string", "integer"], ["integer", "string"], ["integer", "boolean"], ["integer"], ["number", "null"],
+    ["number"], ["boolean", "null"], ["string", "null"], ["string"], ["boolean"], ["null"], ["array", "null"], ["object", "null"], ["integer", "array"],
+    ["integer", "object", "string"], ["string", "boolean", "null"], ["integer", "string", "boolean", "null"], ["number", "string"],
+    # both names: the unchanged generator ends with KeyError (del strategies[integer]); counted, not judged
+    ["number", "integer"], ["integer", "number", "null"],
+]
+
+
+def list_type_schema(rng, types):
+    s = {"type": list(types)}
+    for t in types:
+        extras = LIST_TYPE_EXTRAS.get(t)
+        if extras and rng.random() < 0.6:
+            s.update(copy.deepcopy(rng.choice(extras)))
+    return s
+
+
+def gen_list_typed(rng):
+    return wrap_schema(rng.choice(WRAPPERS[:4]), list_type_schema(rng, rng.choice(LIST_TYPES)))
+
+
+def stage_type_lists(chk, thorough=False):
+    rng = chk.rng
+    stats = {"keywords": 0, "agree": 0, "raw_keyword_planner": 0, "values_validated": 0, "schemas": 0, "operations": 0, "key_error": 0}
+    # --- tie: the strategies consulted by _negative_type vs negative_type_plan, for every type set
+    kws = type_keywords(rng, thorough)
+    model = core.coq_eval(IMPORTS, [f"(negative_type_plan {c_type_kw(kw)}, negative_type_plan_raw_keyword {c_type_kw(kw)})" for kw in kws])
+    for kw, (mplan, mraw) in zip(kws, model):
+        stats["keywords"] += 1
+        names = [kw] if isinstance(kw, str) else kw
+        form = "string" if isinstance(kw, str) else "list"
+        chk.seen({"type_kw": kw}, True)
+        chk.count(f"type-keyword:{form}:{len(set(names))}-names" + (":integer-without-number" if "integer" in names and "number" not in names else ""))
+        consulted, values, end = impl_negative_type(kw)
+        impl = end if end != "TypePlan" else ("TypePlan", consulted)
+        want = mplan if isinstance(mplan, str) else ("TypePlan", list(mplan[1]))
+        if impl == want:
+            stats["agree"] += 1
+        else:
+            raw = mraw if isinstance(mraw, str) else ("TypePlan", list(mraw[1]))
+            if impl == raw:
+                stats["raw_keyword_planner"] += 1
+            tie_broken(chk, "strategies consulted by _negative_type vs negative_type_plan", {"type": kw}, impl, want, [{"type": kw}])
+        # the oracle runs whether or not the tie holds: a value presented as Incorrect type must not be of a listed type
+        if all(t in TYPE_C for t in names):
+            for value, mode, desc in values:
+                verdict = is_valid({"type": names}, value)
+                if verdict is None:
+                    continue
+                stats["values_validated"] += 1
+                if mode != "N" or verdict:
+                    chk.fail(
+                        "value presented as 'Incorrect type' is of a type the schema lists",
+                        {"schema": {"type": kw}, "modes": "N", "value": repr(value)[:160], "description": desc, "strategies_consulted": consulted},
+                        region=None,
+                    )
+    if stats["raw_keyword_planner"]:
+        chk.notes.append(
+            f"{stats['raw_keyword_planner']} type keywords are planned exactly as by negative_type_plan_raw_keyword (the float rule keyed on the raw "
+            "keyword, sentinel of C03_negative_type_raw_keyword_refuted)"
+        )
+    # --- oracle through cover_schema_iter: list-valued type at top level and nested, all mode sets containing negative (+ positive)
+    items = []
+    turn = rng.randrange(4)
+    for types in LIST_TYPES:
+        for w in WRAPPERS[:4] if not thorough else WRAPPERS:
+            for rep in range(1 if not thorough else 3):
+                turn += 1
+                s = wrap_schema(w, list_type_schema(rng, types) if rep or turn % 2 else {"type": list(types)})
+                stats["schemas"] += 1
+                chk.seen({"list-typed": s}, True)
+                chk.count(f"type-list:{'+'.join(types)}:{w}")
+                if iterate(s, "N", location="body")[1] != "Completed":
+                    stats["key_error"] += 1
+                    chk.count("type-list:generator-raises")
+                    continue
+                tags = ("P", "N", "PN") if thorough else ("N", "PN") if turn % 3 else ("N", "PN", "P")
+                items += values_of(s, tags, f"schema with a list-valued type ({w})")
+    # --- case level: the same schemas as JSON bodies of single-mode operations of an OpenAPI 3.1 document
+    with deterministic_draws():
+        for types in LIST_TYPES[:12] if not thorough else LIST_TYPES:
+            for w in ("top", "required-property"):
+                turn += 1
+                s = wrap_schema(w, list_type_schema(rng, types) if turn % 2 else {"type": list(types)})
+                for modes in ("N", "P") if thorough or turn % 4 == 0 else ("N",):
+                    desc = {"params": [], "bodies": [["application/json", s]], "method": "post", "other_methods": [], "modes": modes, "openapi": "3.1.0"}
+                    stats["operations"] += 1
+                    items += case_items(desc, "coverage case whose body schema has a list-valued type")
+    stats["mislabelled"] = judge(chk, items, stats)
+    chk.stages["negative_type_lists"] = stats
 
 
 # ----------------------------------------------------------------------------------------
@@ -2185,7 +2370,8 @@ def run(chk: core.Check):
         "Coq 8.16.1 kernel, vm_compute (witness lemmas and model evaluation); no native_compute; no axioms",
         "hand-written model theories/C03/Model_C03.v of closest_multiple_greater_than, _positive_number, the numeric/length keys of "
         "cover_schema_iter, the request plans of _positive_string/_positive_array, the positive values under anyOf/oneOf, Template, _iter_coverage_cases and "
-        "the subschemas of its parameter combination blocks (parameters keyed by (name, location))",
+        "the subschemas of its parameter combination blocks (parameters keyed by (name, location)), _negative_type over type sets (strategies identified by "
+        "identity with STRATEGIES_FOR_TYPE / by construction from FLOAT_STRATEGY and _is_non_integer_float)",
         "correspondence harness harness/props/c03.py (encoders, Coq output parser, canonicalisers, generators, the observation wrapper "
         "around CoverageContext.generate_from_schema, the reconstruction of _combination_schema, the observation wrappers around Template._serialize "
         "(typed content of a case before string coercion) and around the cover_schema_iter calls of _yield_negative)",
@@ -2207,6 +2393,9 @@ def run(chk: core.Check):
         "2-3 of query/header/cookie (sometimes also path) with pairwise DIFFERENT schemas (integer bounds, types, enums, required here and optional there) "
         "and a required/optional mix with 0, 1 or several optional parameters at every location (corpus shared_*.json + random); a systematic grid of the four bounded keyword pairs x zero/equal bound combinations x nestings; "
         "anyOf/oneOf over integer branches under positive and negative generation; "
+        "type keywords as strings and as LISTS: all 128 sets of the seven type names (shuffled), one-element lists, repetitions, unknown names against "
+        "negative_type_plan; schemas with a list-valued type (nullable integer/number/string/boolean/array/object, mixed scalars, with and without bounds that "
+        "admit 0) at top level, as optional/required property and as array items under N, PN (and P), and as JSON bodies of single-mode OpenAPI 3.1 operations; "
         "non-trivial = at least one bound / at least 3 cases; distinct by canonical JSON"
     )
     chk.proofs(["Common", "C03"])
@@ -2221,6 +2410,7 @@ def run(chk: core.Check):
     # a correspondence stage disagreed: the property oracle on the real code at those inputs and at their neighbours
     stage_tie_oracle(chk, max_inputs=24 if quick else 120, max_schemas=700 if quick else 6000)
     stage_bounds(chk, thorough=not quick)
+    stage_type_lists(chk, thorough=not quick)
     if chk.broken and not chk.failures:
         k = 10  # a broken tie without a failing input so far: the sampled search tries ten times harder
     stage_composite(chk, (100 if quick else 1000) * k)
